@@ -776,6 +776,49 @@ def ppp_graph(spec):
     return deps, sorted({0} | set(spec['responses']))
 
 
+# ------------------------------------------------------------------------------------ arrowhead totals (bidirectional colourings)
+
+def gen_arrow_spec(rng):
+    """x (n) -> T: y = diag(a) x -> { S: f = c.y (dense row), U: g = diag(b) y, optionally V: h = diag(e) y }.
+    Total jacobian = dense row(s) + diagonal block(s): the diagonal components declare rows/cols partials (dense-declared blocks count as dense for the sparsity
+    detection); more response entries than design-variable entries, so
+    mode='auto' resolves to fwd, while a dynamic total colouring solves the dense row(s) in reverse.  S is
+    irrelevant to g/h and U, V are irrelevant to f."""
+    def var(name, size, **kw):
+        d = {'name': name, 'size': size, 'units': None, 'up': 0, 'alias': None}
+        d.update(kw)
+        return d
+
+    def inp(src):
+        return {'name': 'x0', 'size': n, 'units': None, 'src': src, 'src_indices': None, 'via': 'connect',
+                'at': 'root', 'at_len': 0, 'up': 0, 'alias': None, 'val': None}
+
+    def diag():
+        return js([[F(rng.choice([-3, -2, 2, 3, 4, 5])) if a == b else F(0) for b in range(n)] for a in range(n)])
+    n = rng.randrange(3, 6)
+    comps = [{'path': 'd', 'kind': 'ivc', 'mf': False, 'sparse': False, 'ins': [],
+              'outs': [var('v0', n, val=[rng.randrange(-3, 4) for _ in range(n)])]},
+             {'path': 'T', 'kind': 'exp', 'mf': False, 'sparse': True, 'ins': [inp([0, 0])],
+              'outs': [var('y0', n, A=[diag()], b=[0] * n)]}]
+    nrow = rng.randrange(1, 3)
+    dense = [[F(rng.choice([-2, -1, 1, 2, 3])) for _ in range(n)] for _ in range(nrow)]
+    comps.append({'path': 'S', 'kind': 'exp', 'mf': False, 'sparse': False, 'ins': [inp([1, 0])],
+                  'outs': [var('y0', nrow, A=[js(dense)], b=[0] * nrow)]})
+    for name in ['U'] + (['g.V'] if rng.random() < 0.4 else []):
+        comps.append({'path': name, 'kind': 'exp', 'mf': False, 'sparse': True, 'ins': [inp([1, 0])],
+                      'outs': [var('y0', n, A=[diag()], b=[0] * n)]})
+    spec = {'comps': comps, 'coupled': False,
+            'desvars': [{'comp': 0, 'out': 0, 'indices': None, 'units': None, 'scaler': None, 'adder': None,
+                         'ref': None, 'ref0': None}],
+            'responses': []}
+    for ci in range(2, len(comps)):
+        r = {'comp': ci, 'out': 0, 'alias': None, 'units': None, 'indices': None,
+             'type': 'obj' if (ci == 2 and nrow == 1) else 'con', 'scaler': None, 'adder': None, 'ref': None,
+             'ref0': None}
+        spec['responses'].append(r)
+    return spec
+
+
 # ------------------------------------------------------------------------------------ solver scaling (C08)
 
 def with_scaling(spec, rng, pow2=True, route='add', only=None, prefer_group=False):
